@@ -2,10 +2,12 @@ package dbp
 
 import (
 	"bytes"
+	"context"
 	"encoding/json"
 	"errors"
 	"fmt"
 	"io"
+	"net/http"
 	"os"
 	"path/filepath"
 	"strings"
@@ -15,8 +17,10 @@ import (
 
 	"github.com/tailscale/setec/audit"
 	"github.com/tailscale/setec/db"
+	"github.com/tailscale/setec/server"
 	"github.com/tink-crypto/tink-go/v2/tink"
 	"pgregory.net/rapid"
+	"tailscale.com/client/tailscale/apitype"
 	"verifharness/dbx"
 	"verifharness/h"
 	"verifharness/model"
@@ -73,6 +77,9 @@ type RestCase struct {
 	// indices of calls during which the state directory is unavailable, so that a save fails and the
 	// server has to undo the change in memory - still without the key-encryption key
 	FailSave []int `json:"fail_save,omitempty"`
+	// the calls go through the registered HTTP handlers (an authorized request that fails - reserved
+	// name, empty name, failed save - passes through more server code than one that succeeds)
+	HTTP bool `json:"http,omitempty"`
 }
 
 func genMarker(rt *rapid.T, label string) []byte {
@@ -98,7 +105,9 @@ func genRestCase(rt *rapid.T) RestCase {
 			names[i] = "prod/" + names[i]
 		}
 	}
-	c := RestCase{Poison: rapid.Bool().Draw(rt, "poison")}
+	c := RestCase{Poison: rapid.Bool().Draw(rt, "poison"), HTTP: rapid.IntRange(0, 2).Draw(rt, "http") == 0}
+	// names under which a put is authorized and fails
+	names = append(names, "", "_internal/"+names[0])
 	if rapid.IntRange(0, 2).Draw(rt, "withoutage") == 0 {
 		c.FailSave = rapid.SliceOfN(rapid.IntRange(0, 13), 1, 3).Draw(rt, "failsave")
 	}
@@ -135,9 +144,29 @@ func runC05Scan(t *testing.T, c RestCase) (*h.Violation, h.Info) {
 	defer aw.Close()
 	inner, _ := newRealKEK()
 	kek := &countingKEK{inner: inner}
-	d, err := db.Open(dbPath, kek, aw)
+	var d *db.DB
+	mux := http.NewServeMux()
+	if c.HTTP {
+		// as the server binary does it: the server opens the database itself and is given the audit writer
+		_, err = server.New(context.Background(), server.Config{DBPath: dbPath, Key: kek, AuditLog: aw, Mux: mux,
+			WhoIs: func(context.Context, string) (*apitype.WhoIsResponse, error) { return dbx.WhoIsOf(dbx.Super()), nil }})
+	} else {
+		d, err = db.Open(dbPath, kek, aw)
+	}
 	if err != nil {
 		return h.V("harness", "open: %v", err), info
+	}
+	// what the server serves: asked of the handle we hold, or - when the server owns the handle - read
+	// from the file it keeps (with the plain key: the harness's own reads are not the server's)
+	served := func() (model.KV, error) {
+		if d != nil {
+			return dbx.Dump(d)
+		}
+		d2, err := dbx.OpenDiscard(dbPath, inner)
+		if err != nil {
+			return nil, err
+		}
+		return dbx.Dump(d2)
 	}
 	openCalls := kek.calls.Load()
 	if openCalls == 0 {
@@ -148,8 +177,13 @@ func runC05Scan(t *testing.T, c RestCase) (*h.Violation, h.Info) {
 		info.Class("kek-poisoned-after-open")
 	}
 	su := dbx.Super()
-	tgt := dbx.DBTarget{D: d}
+	var tgt dbx.Target = dbx.DBTarget{D: d}
 	tr := dbx.NewTracker()
+	if c.HTTP {
+		tgt = &dbx.HTTPTarget{Mux: mux, AddrOf: dbx.AddrOf}
+		tr.Wire = true
+		info.Class("through-http-handlers")
+	}
 	var values, names [][]byte
 	seenName := map[string]bool{}
 	saves := 0
@@ -160,6 +194,9 @@ func runC05Scan(t *testing.T, c RestCase) (*h.Violation, h.Info) {
 			if f == i && wouldSave(tr.M, op, ver) {
 				outage = true
 			}
+		}
+		if op.Kind == "put" {
+			values = append(values, op.Val) // also of puts that fail: their bytes must not turn up anywhere either
 		}
 		if outage {
 			away := dir + ".away"
@@ -177,33 +214,30 @@ func runC05Scan(t *testing.T, c RestCase) (*h.Violation, h.Info) {
 			if n := kek.calls.Load(); n != openCalls {
 				return h.V("kek-only-at-open", "step %d %s: its save failed, and while undoing the change the key-encryption key was used %d more time(s) after Open returned", i, op, n-openCalls), info
 			}
-			if dump, err := dbx.Dump(d); err != nil || dbx.DumpDiff(dump, tr.M) != "" {
+			if dump, err := served(); err != nil || dbx.DumpDiff(dump, tr.M) != "" {
 				clause := "result-equals-model"
 				if c.Poison {
 					clause = "running-server-independent-of-kek"
 				}
 				return h.V(clause, "step %d %s: after its save failed the server holds %v %s (KEK poisoned=%v)", i, op, err, dbx.DumpDiff(dump, tr.M), c.Poison), info
 			}
-			continue
-		}
-		want := tr.Expect(su.Rules, op, ver)
-		got := tgt.Do(su, op, ver)
-		if diff := dbx.Compare(got, want); diff != "" {
-			clause := "result-equals-model"
-			if c.Poison {
-				clause = "running-server-independent-of-kek"
+		} else {
+			want := tr.Expect(su.Rules, op, ver)
+			got := tgt.Do(su, op, ver)
+			if diff := dbx.Compare(got, want); diff != "" {
+				clause := "result-equals-model"
+				if c.Poison {
+					clause = "running-server-independent-of-kek"
+				}
+				return h.V(clause, "step %d %s (KEK poisoned=%v): %s", i, op, c.Poison, diff), info
 			}
-			return h.V(clause, "step %d %s (KEK poisoned=%v): %s", i, op, c.Poison, diff), info
+			if op.Mutating() && got.Class == model.OK {
+				saves++
+			}
 		}
-		if op.Kind == "put" {
-			values = append(values, op.Val)
-		}
-		if op.Name != "" && !seenName[op.Name] {
+		if op.Name != "" && !seenName[op.Name] && !strings.HasPrefix(op.Name, "_internal/") {
 			seenName[op.Name] = true
 			names = append(names, []byte(op.Name))
-		}
-		if op.Mutating() && got.Class == model.OK {
-			saves++
 		}
 		if n := kek.calls.Load(); n != openCalls {
 			return h.V("kek-only-at-open", "step %d %s: the key-encryption key was used %d more time(s) after Open returned", i, op, n-openCalls), info
@@ -228,6 +262,34 @@ func runC05Scan(t *testing.T, c RestCase) (*h.Violation, h.Info) {
 				return h.V("owner-only-permissions", "after step %d %s: file %s has mode %o (umask 0)", i, op, e.Name(), mode), info
 			}
 		}
+	}
+	// The file disappears or is damaged underneath the running server; the next write puts a complete
+	// file back - from what the server holds in memory, without going back to the key service.
+	if kind := len(c.Ops) % 4; kind != 0 && len(names) > 0 {
+		switch kind {
+		case 1:
+			os.Remove(dbPath)
+		case 2:
+			os.WriteFile(dbPath, []byte("{\"Version\":1,\"garbage\":true"), 0o600)
+		case 3:
+			if b, err := os.ReadFile(dbPath); err == nil {
+				os.WriteFile(dbPath, b[:len(b)/2], 0o600)
+			}
+		}
+		op := dbx.Op{Kind: "put", Name: string(names[0]), Val: []byte("written-after-the-file-was-damaged")}
+		want := tr.Expect(su.Rules, op, 0)
+		got := tgt.Do(su, op, 0)
+		if n := kek.calls.Load(); n != openCalls {
+			return h.V("kek-only-at-open", "the database file was %s underneath the running server; the next write used the key-encryption key %d more time(s) after Open returned (result %s)", []string{"", "removed", "overwritten with garbage", "truncated"}[kind], n-openCalls, got), info
+		}
+		if diff := dbx.Compare(got, want); diff != "" {
+			clause := "result-equals-model"
+			if c.Poison {
+				clause = "running-server-independent-of-kek"
+			}
+			return h.V(clause, "write after the database file was %s (KEK poisoned=%v): %s", []string{"", "removed", "overwritten with garbage", "truncated"}[kind], c.Poison, diff), info
+		}
+		info.Class("file-damaged-under-the-running-server")
 	}
 	// a different key must not open it, and must leave it alone - also after the file has been
 	// opened with the right key by this very process (no key material may be remembered)
